@@ -501,6 +501,8 @@ def c04(tier, seed):
         {'line': 'alias zq=1; alias < /nonexistent-dir/x; echo st=$?', 'files': F, 'expect_stdout_not_contains': 'zq', 'expect_stdout_last_line_not': 'st=0', 'area': 'redirect:builtin:unopenable-input'},
         # a builtin's redirection also holds inside $(...)
         {'line': 'alias zq=1; echo "[$(alias > f9)]"; cat f9', 'files': F, 'expect_stdout_prefix': '[]\n', 'expect_stdout_contains': 'zq', 'area': 'redirect:builtin:captured'},
+        {'line': 'alias zq=1; echo "[$(alias nosuch 2>&1)]"; echo "[$(alias zq >f1 2>&1)]"; cat f1; echo "[$(alias nosuch 2>&1 >f2)]"; cat f2; echo "[$(alias nosuch >f3 2>&1)]"; cat f3', 'files': F,
+         'expect_stdout': "[cicada: alias: nosuch: not found]\n[]\nalias zq='1'\n[cicada: alias: nosuch: not found]\n[]\ncicada: alias: nosuch: not found\n", 'area': 'redirect:builtin:captured:descriptor-copies'},
         # several input redirections: the last one on the line is in effect
         # no space on either side of `<` / `<<<`
         {'line': 'cat<inf; cat< inf; wc -l<inf; cat<<<hi; cat<<< hi2; cat<inf|cat', 'files': dict(F, inf='FROMFILE\n'), 'expect_stdout': 'FROMFILE\nFROMFILE\n1\nhi\nhi2\nFROMFILE\n', 'area': 'redirect:stdin:no-space-in-front'},
